@@ -63,8 +63,9 @@ func c05Scenarios(thorough bool) []*explore.Scenario {
 		}
 	}
 	// SM: a small sealed segment holds the put of a key whose delete record lands in the compacted segment
-	for i, w := range []explore.Op{op(explore.Delete, "a"), op(explore.Put, "a"), op(explore.Delete, "b")} {
-		scs = append(scs, &explore.Scenario{Name: fmt.Sprintf("CW1-SM-%d", i), Base: "SM", Cfg: "ROLLM", Threads: []explore.ThreadProg{{op(explore.Delete, "a"), op(explore.Compact, "")}, {w}}, Bound: -1, Record: true})
+	// (the interleavings in which the writer's Delete(a) comes first make the current segment eligible)
+	for i, w := range []explore.ThreadProg{{op(explore.Delete, "a")}, {op(explore.Delete, "a"), op(explore.Put, "n")}, {op(explore.Delete, "a"), op(explore.Delete, "b")}, {op(explore.Delete, "a"), op(explore.Put, "a")}} {
+		scs = append(scs, &explore.Scenario{Name: fmt.Sprintf("CW-SM-%d", i), Base: "SM", Cfg: "ROLLM", Threads: []explore.ThreadProg{{op(explore.Compact, "")}, w}, Bound: -1, Record: true})
 	}
 	// compaction of a chained index with colliding hashes: promotion must repoint the right slot
 	for i, w := range []explore.Op{op(explore.Put, "o0"), op(explore.Put, "x"), op(explore.Delete, "o1")} {
